@@ -1265,6 +1265,15 @@ impl<T: Transport + 'static> SyncEngine<T> {
 
         // Emit summary event if JSON mode
         if self.json {
+            // Failed operations are part of the machine-readable report
+            for err in &final_stats.errors {
+                SyncEvent::Error {
+                    path: err.path.clone(),
+                    error: format!("[{}] {}", err.action, err.error),
+                }
+                .emit();
+            }
+
             SyncEvent::Summary {
                 files_created: final_stats.files_created,
                 files_updated: final_stats.files_updated,
